@@ -1091,39 +1091,23 @@ func (p *Proof) undoAdd(numAdds, numLeaves uint64, cachedHashes []Hash, toDestro
 	forestRows := TreeRows(numLeaves)
 	prevForestRows := TreeRows(numLeaves - numAdds)
 
-	// Move positions to their previous positions before the empty roots were destroyed.
-	for _, destroyed := range toDestroy {
-		for i, target := range targetsWithHash.positions {
-			if destroyed <= target {
-				continue
-			}
-
-			// If these positions are in different subtrees, continue.
-			subtree, _, _, _ := DetectOffset(target, numLeaves)
-			subtree1, _, _, _ := DetectOffset(destroyed, numLeaves-numAdds)
-			if subtree != subtree1 {
-				continue
-			}
-			if isAncestor(Parent(destroyed, forestRows), target, forestRows) {
-				targetsWithHash.positions[i] = calcPrevPosition(target, destroyed, forestRows)
-			}
-		}
-
-		for i, target := range proofWithPos.positions {
-			if destroyed <= target {
-				continue
-			}
-			// If these positions are in different subtrees, continue.
-			subtree, _, _, _ := DetectOffset(target, numLeaves)
-			subtree1, _, _, _ := DetectOffset(destroyed, numLeaves-numAdds)
-			if subtree != subtree1 {
-				continue
-			}
-			if isAncestor(Parent(destroyed, forestRows), target, forestRows) {
-				proofWithPos.positions[i] = calcPrevPosition(target, destroyed, forestRows)
-			}
-		}
+	// Undoing all the way back to an empty accumulator leaves nothing to cache.
+	if numLeaves == numAdds {
+		p.Proof = nil
+		p.Targets = nil
+		return nil, nil
 	}
+
+	// Move positions to their previous positions before the empty roots were destroyed.
+	// The root that was destroyed last is undone first.
+	for i := len(toDestroy) - 1; i >= 0; i-- {
+		destroyed := toDestroy[i]
+		movedTo := Parent(destroyed, forestRows)
+		moveDownPositions(forestRows, movedTo, destroyed, targetsWithHash.positions)
+		moveDownPositions(forestRows, movedTo, destroyed, proofWithPos.positions)
+	}
+	sort.Sort(targetsWithHash)
+	sort.Sort(proofWithPos)
 
 	// Prune all positions that can't exist in the previous forest rows.
 	var err error
@@ -1134,31 +1118,6 @@ func (p *Proof) undoAdd(numAdds, numLeaves uint64, cachedHashes []Hash, toDestro
 	proofWithPos, err = pruneEdges(proofWithPos, numAdds, numLeaves, forestRows, prevForestRows)
 	if err != nil {
 		return nil, err
-	}
-
-	// Prune all positions that are under the previously empty root.
-	for row := 0; row <= int(prevForestRows); row++ {
-		for _, destroyed := range toDestroy {
-			for i := 0; i < proofWithPos.Len(); i++ {
-				target := proofWithPos.positions[i]
-				// If these positions are in different subtrees, continue.
-				subtree, _, _, _ := DetectOffset(destroyed, numLeaves)
-				subtree1, _, _, _ := DetectOffset(target, numLeaves)
-				if subtree == subtree1 || target == destroyed {
-					proofWithPos.Delete(i)
-				}
-			}
-
-			for i := 0; i < targetsWithHash.Len(); i++ {
-				target := targetsWithHash.positions[i]
-				// If these positions are in different subtrees, continue.
-				subtree, _, _, _ := DetectOffset(destroyed, numLeaves)
-				subtree1, _, _, _ := DetectOffset(target, numLeaves)
-				if subtree == subtree1 || target == destroyed {
-					targetsWithHash.Delete(i)
-				}
-			}
-		}
 	}
 
 	// Remap all positions to their previous positions before the remap.
